@@ -89,7 +89,13 @@ pub fn op_place(args: &[Sexp]) -> String {
 }
 fn make_array(s: &Sexp, cells: &Vec<Ptr<t::cell::Cell>>) -> Option<Ptr<Array>> {
     let v = s.list()?;
-    let sep = Separation::new(Some(SepBy::UnitSpeced(UnitSpeced::PrimPitches(PrimPitches::x(v[3].int()? as isize)))), Some(SepBy::UnitSpeced(UnitSpeced::PrimPitches(PrimPitches::y(v[4].int()? as isize)))), None);
+    // a zero pitch is spelled as "no separation on that axis" (as users do), a non-zero one in primitive pitches
+    let (sx, sy) = (v[3].int()? as isize, v[4].int()? as isize);
+    let sep = Separation::new(
+        if sx == 0 { None } else { Some(SepBy::UnitSpeced(UnitSpeced::PrimPitches(PrimPitches::x(sx)))) },
+        if sy == 0 { None } else { Some(SepBy::UnitSpeced(UnitSpeced::PrimPitches(PrimPitches::y(sy)))) },
+        None,
+    );
     let unit = match v[0].atom()? { "leaf" => Arrayable::Instance(cells.get(v[1].int()? as usize)?.clone()), "nested" => Arrayable::Array(make_array(&v[1], cells)?), _ => return None };
     Some(Ptr::new(Array { name: "arr".into(), unit, count: v[2].int()? as usize, sep }))
 }
@@ -237,8 +243,10 @@ pub fn gen(thorough: bool, rng: &mut Rng, out: &mut Vec<String>) {
     }
     for _ in 0..(if thorough { 10000 } else { 1500 }) {
         let depth = rng.below(3);
-        let mut a = format!("(leaf {} {} {} {})", rng.below(4), rng.below(5), rng.range(-6, 6), rng.range(-6, 6));
-        for _ in 0..depth { a = format!("(nested {} {} {} {})", a, rng.below(4), rng.range(-20, 20), rng.range(-20, 20)); }
+        let pitch = |rng: &mut Rng, r: i64| -> (i64, i64) { match rng.below(3) { 0 => (rng.range(-r, r), 0), 1 => (0, rng.range(-r, r)), _ => (rng.range(-r, r), rng.range(-r, r)) } };
+        let (px, py) = pitch(rng, 6);
+        let mut a = format!("(leaf {} {} {} {})", rng.below(4), rng.below(5), px, py);
+        for _ in 0..depth { let (qx, qy) = pitch(rng, 20); a = format!("(nested {} {} {} {})", a, rng.below(4), qx, qy); }
         out.push(format!("place.array {} {} {} {} {}", a, rng.range(-30, 30), rng.range(-30, 30), if rng.coin() { "#t" } else { "#f" }, if rng.coin() { "#t" } else { "#f" }));
     }
 }
